@@ -687,7 +687,11 @@ class Gen:
         push the einsum through: (a +- b), c*a, a*c, a/c, -a (and c/a, which
         must NOT be distributed), nested up to twice."""
         pred = lambda v: 1 <= v.a.ndim <= 3 and v.kind in "iufc" and not v.nonfinite  # noqa: E731,E501
-        x = self.pick(pred)
+        # (mostly floating operands: '/' keeps their dtype)
+        x = self.pick(lambda v: pred(v) and v.kind == "f") \
+            if self.boolean(2, 3) else None
+        if x is None:
+            x = self.pick(pred)
         if x is None:
             x = self.new_input(self.choice(["float64", "int32"]),
                                self.draw_shape(self.integers(1, 2)))
@@ -702,7 +706,20 @@ class Gen:
             if kind in ("add", "sub"):
                 same = self.arrays(lambda v: v.shape == sh and v.kind in "iufc"
                                    and not v.nonfinite)
+                # (the law only distributes through dtype-preserving
+                # operations: mostly offer it operands of one dtype)
+                same_dt = [q for q in same
+                           if self.vals[q].a.dtype == self.vals[t].a.dtype]
+                if same_dt and self.boolean(4, 5):
+                    same = same_dt
                 y = self.choice(same) if same else t
+                if sh and sh[-1] > 1 and self.boolean(1, 4):
+                    # a summand with a unit axis (broadcast within the sum):
+                    # the law must NOT distribute through this one
+                    yb = self.try_op("index", [["n", y]], {"idx": [
+                        ["ellipsis"], ["slice", 0, 1, None]]})
+                    if yb is not None:
+                        y = yb
                 if y == t and self.boolean():
                     y2 = self.try_op("mul", [["n", t], ["py", 2]])
                     y = y2 if y2 is not None else y
